@@ -30,3 +30,32 @@ def tasks(tier):
 
 def run(hname, cfg, tier, seed):
     return hds.read_task("C06", cfg, tier, seed)
+
+
+def precheck(tier, seed):
+    import glob
+    import io
+
+    from dissect.hypervisor.disk.hdd import HDS
+    from harness import fixtures
+    from oracles import hds as spec
+
+    errors, traces = [], 0
+    files = sorted(glob.glob(f"{fixtures.DATA}/expanding.hdd/*.hds.gz") + glob.glob(f"{fixtures.DATA}/split.hdd/*.hds.gz"))
+    for path in files[:4]:
+        rel = path[len(fixtures.DATA) + 1:]
+        data = fixtures.load_gz(rel)
+        if data[:16] not in (spec.SIG_V1, spec.SIG_V2):
+            continue
+        obj = HDS(io.BytesIO(data))
+        mem = fixtures.mem_of(data)
+        version = 1 if data[:16] == spec.SIG_V1 else 2
+        tracks = int.from_bytes(data[28:32], "little")
+
+        def real(off, ln, obj=obj):
+            obj.seek(off)
+            return obj.read(ln)
+
+        traces += fixtures.compare(rel, real, lambda g: spec.guest_byte(g, version, tracks, mem), obj.size, (tracks * 512,),
+                                   seed, errors)
+    return dict(errors=errors, traces=traces, summary=f"oracle == real reader on {len(files[:4])} HDS files of tests/data")
